@@ -171,6 +171,23 @@ class FJSPSpec(SSpec):
                 if len(inst["pad_mask"]) != 2 * J:
                     continue
                 out.append((f"gen-{J}x{M}-s{seed}-{j}", inst))
+        if self.jssp:
+            # the JSSP generator's documented padded mode (jobs of different length, machines drawn freely): rows of ONE
+            # generated batch, so that shorter rows carry the generator's own padding
+            from rl4co.envs.scheduling.jssp.generator import JSSPGenerator
+
+            torch.manual_seed(2000 * seed + 5)
+            try:
+                td = JSSPGenerator(num_jobs=2, num_machines=2, min_ops_per_job=1, max_ops_per_job=2, one2one_ma_map=False, min_processing_time=1, max_processing_time=4)(6)
+                seen = set()
+                for r in range(6):
+                    inst = td_to_inst(td[r : r + 1])
+                    n_real = sum(1 for x in inst["pad_mask"] if not x)
+                    if len(inst["pad_mask"]) == 4 and n_real not in seen:
+                        seen.add(n_real)
+                        out.append((f"gen-padded-2x2-s{seed}-r{n_real}", inst))
+            except Exception:
+                pass  # generator crashes are C18's business
         return out
 
 
